@@ -24,9 +24,8 @@ func init() {
 	register(&Rule{ID: "P-CHARCLASS", Props: []string{"C04", "C16", "C19", "C08"}, Floor: 4,
 		Doc: "every predicate over a rune/byte built from >= 2 comparisons with constants (lexer, parser) accepts exactly one of the grammar's character classes (digit, letter/underscore, letter/digit/underscore, hex a-f, hex A-F, whitespace or its complement), and each scanner uses only the classes the grammar gives it",
 		Run: rulePCharClass})
-	register(&Rule{ID: "P-REJECT-CONJ", Props: []string{"C04", "C16"}, Floor: 1,
-		Doc: "a guard that rejects unless several fixed positions of one string hold fixed characters is a disjunction of != tests (a conjunction accepts a string that matches in only one position)",
-		Run: rulePRejectConj})
+	// P-REJECT-CONJ (retired): its one instance, the test for a second \\u after a surrogate, is a shape of P-DECODE
+	_ = rulePRejectConj
 	register(&Rule{ID: "P-RUNEERROR", Props: []string{"C04", "C16", "C11"}, Floor: 1,
 		Doc: "every comparison with utf8.RuneError is conjoined with a test of the decoded size (a well-formed U+FFFD decodes to the same rune with size 3)",
 		Run: rulePRuneError})
